@@ -228,7 +228,7 @@ def check_layout_agreement(ctx, prog, R):
         n += len(bases)
         ctx.check(bool(bases) and all(h == hdr for h, _ in bases), "layout-agreement", role + ":header",
                   "%s addresses the table with a header size other than HTX_HEADER_SZ (%s)" % (role, bases), where=where(fn))
-    ctx.floor("layout-agreement", "table address expressions", n, 5)
+    ctx.floor("layout-agreement", "table address expressions", n, 5 if c04bitmap.has_bitmap(prog) else 3)
     if c04bitmap.has_bitmap(prog):
         # bitmap base uses the *table size* operand, slot address uses the *index* operand
         for fn, role, size_param, idx_name in ((store, "BUCKET_STORE", 2, 3), (scan, "SCAN", 2, 3)):
